@@ -134,6 +134,59 @@ func WiringRule(w *World, r *Result, rule string, only func(method string) bool)
 			}
 		}
 	}
+	// pairing (independent of where the call sits): the name and the scope flag a Converter method
+	// receives describe ONE variable — both are accessors of the same value, nothing else
+	rePure := regexp.MustCompile(`^([\w.\[\]\*()]+)\.(Name|Global)\(\)$`)
+	pureBase := func(v Val) (string, bool) {
+		txt := ""
+		switch x := v.(type) {
+		case StrV:
+			if len(x.T) == 1 {
+				if h, ok := x.T[0].(Hole); ok {
+					txt = h.Origin
+				}
+			}
+		case BoolV:
+			txt = x.Desc
+		case OpaqueV:
+			txt = x.Origin
+		}
+		if m := rePure.FindStringSubmatch(strings.TrimSpace(txt)); m != nil {
+			return m[1], true
+		}
+		return txt, false
+	}
+	pairN := map[string]int{}
+	for _, dc := range DriverCalls(w) {
+		if only != nil && !only(dc.Method) {
+			continue
+		}
+		g, hasG := dc.Args["global"]
+		var nameArg Val
+		hasN := false
+		for _, pn := range []string{"name", "destination"} {
+			if v, ok := dc.Args[pn]; ok {
+				nameArg, hasN = v, true
+			}
+		}
+		if !hasG || !hasN {
+			continue
+		}
+		if bv, ok := g.(BoolV); ok && bv.Const != nil {
+			continue // a constant flag: a helper variable of the driver's own
+		}
+		pairN[dc.Method+"@"+dc.Fn.Name()]++
+		key := fmt.Sprintf("wire:pair:%s@%s#%d", dc.Method, dc.Fn.Name(), pairN[dc.Method+"@"+dc.Fn.Name()])
+		gb, gok := pureBase(g)
+		nb, nok := pureBase(nameArg)
+		// the name may be the node's own Name() while the flag is its Variable's (SliceAssignment): same node
+		same := gok && nok && (gb == nb || strings.HasPrefix(gb, nb+".") || strings.HasPrefix(nb, gb+"."))
+		if same {
+			r.Ok(rule, key, w.Pos(dc.Call.Pos()), "name and scope flag are accessors of the same variable ("+nb+")")
+		} else {
+			r.Bad(rule, key, w.Pos(dc.Call.Pos()), fmt.Sprintf("%s receives the name of one variable (%s) and the scope flag of something else (%s): a local is written as a global or a global as a mangled local", dc.Method, nb, gb))
+		}
+	}
 	// handlers of the table that were not met at all (renamed / restructured): report as undecided once per method
 	var missing []string
 	for id := range wiringTable {
@@ -148,5 +201,20 @@ func WiringRule(w *World, r *Result, rule string, only func(method string) bool)
 	sort.Strings(missing)
 	if len(missing) > 0 && len(seen) == 0 {
 		r.Bad(rule, "wire:none", "-", "none of the Converter calls of the reference tree was found in the driver: "+strings.Join(missing, ", "))
+	}
+}
+
+func init() {
+	dumpers["wiring"] = func(w *World, args []string) {
+		for _, dc := range DriverCalls(w) {
+			var ps []string
+			for p := range dc.Args {
+				ps = append(ps, p)
+			}
+			sort.Strings(ps)
+			for _, p := range ps {
+				fmt.Printf("%s.%s@%s = %v\n", dc.Method, p, dc.Fn.Name(), dc.Args[p])
+			}
+		}
 	}
 }
